@@ -118,4 +118,16 @@ Signature(hf, height, e, levels, idx, msg) ==
       chains == FoldLeft(LAMBDA acc, c : acc \o Chain(hf, WotsSk(hf, os, c - 1), 0, b[c], pub, idx, c - 1), <<>>, [c \in 1..WLEN |-> c])
       auth == FoldLeft(LAMBDA acc, j : acc \o levels[j + 1][Sibling(idx \div 2^j) + 1], <<>>, [j \in 1..height |-> j - 1])
   IN ToByte(idx, 4) \o r \o chains \o auth
+
+\* the part of a signature that does not depend on the tree: index, randomiser R = PRF(SK_PRF, idx), and the WOTS
+\* signature of H_msg(R || root || idx, msg) under the one-time key of leaf idx.  root is the one in the public key.
+\* (Used for trees too tall to be held: the index words of the addresses and of the H_msg key get large.)
+SignatureHead(hf, e, root, idx, msg) ==
+  LET pub == PubSeed(e)
+      r  == PRF(hf, SkPrf(e), ToByte(idx, NB))
+      mh == MsgHash(hf, r, root, idx, msg)
+      b  == AllDigits(mh)
+      os == OtsSeed(hf, SkSeed(e), idx)
+      chains == FoldLeft(LAMBDA acc, c : acc \o Chain(hf, WotsSk(hf, os, c - 1), 0, b[c], pub, idx, c - 1), <<>>, [c \in 1..WLEN |-> c])
+  IN ToByte(idx, 4) \o r \o chains
 =============================================================================
